@@ -87,6 +87,13 @@ Section Sums.
     rewrite IHn. simpl. ring.
   Qed.
 
+  Lemma sumn_split_add : forall n m f, sumn (n + m) f = sumn n f + sumn m (fun k => f (Nat.add n k)).
+  Proof.
+    induction m; intros f.
+    - rewrite Nat.add_0_r. simpl. ring.
+    - rewrite Nat.add_succ_r. simpl. rewrite IHm. ring.
+  Qed.
+
   (* take the term with index m out of the sum *)
   Lemma sumn_split_at : forall n m f, m < n ->
     sumn n f = f m + sumn n (fun k => if Nat.eqb k m then 0 else f k).
